@@ -17,6 +17,7 @@ RULE = ("history: SpatiallyAdaptiveExtendScheme (d 2-3, lmin 1, lmax 2-4, coarse
         "Distinct = distinct case dict.")
 ASSUMPTIONS = [
     "area grid points are identified by their relative position in the domain rounded to 2^-40 (component grids of different levels compute the same dyadic point with last-ulp differences on non-dyadic boxes)",
+    "boundary=False is not part of C07's quantifier; it is generated (1 in 4) only with the automatic extend/split decision off, because that decision compares point counts that can be zero without boundary points (library assertion in set_extend_benefit)",
     "volume sum tolerance 1e-12 relative; interpolation tolerance 1e-9*(1+max|f|); coefficient sums exact",
     "with boundary=False the coefficient clause is evaluated on the points the area grids return; the derived interpolation clause is evaluated with boundary points only (without them the library's d-linear area interpolation is undefined outside the innermost mesh of the coarser component grids)",
     "the local interpolant of an area is the coefficient-weighted sum of the area's computed component-grid interpolants (operation.interpolate_points_component_grid on the area mesh), not the global __call__, which may assign a face point to the neighbouring area",
